@@ -13,19 +13,21 @@ RULE = ("behaviours = maximal-length behaviours of MCCobCache (creations, local 
         "into a real Storage + sqlite cache; after every step every query (get, list, list_by_status per status, counts, "
         "find_by_revision for every identifier issued so far: objects, live and redacted revisions, comments, reviews, unknown) is "
         "issued on Cache<_, StoreWriter> and Cache<_, NoCache>, compared in full with each other and with the model's answer; "
-        "non-trivial = behaviour with a peer step and a removal/redaction; plus random longer behaviours recorded from the "
-        "implementation and validated by TLC (TraceCobCache)")
+        "non-trivial = behaviour with a peer step and a removal/redaction; two repositories share the cache database and every "
+        "query is asked of both with the identifiers of both; plus scripted behaviours that fill both repositories with issues and "
+        "patches of every status / close reason, and random longer behaviours, recorded from the implementation and validated by "
+        "TLC (TraceCobCache)")
 
 
 def describe(s):
     o = s["op"]
     a = s["a"]
     if a in ("create", "fetchedCreate"):
-        return f"{a}({o['kind']} {o['st']} {o['id']})"
+        return f"{a}(r{o.get('repo', 1)} {o['kind']} {o['st']} {o['id']})"
     if a in ("local", "fetched"):
         return f"{a}({s['obj']}:{o['k']}" + (f" {o['arg']}" if o.get("arg") else "") + (f" {o['st']}" if o["st"] != "-" else "") + ")"
     if a == "writeAll":
-        return f"writeAll({o['kind']})"
+        return f"writeAll(r{o.get('repo', 1)} {o['kind']})"
     return f"{a}({s['obj']})"
 
 
@@ -86,6 +88,138 @@ def report(ctx, r, source):
     ctx.violation(f"{r['kind']} [{r['shape']}] {detail[:160]}", f"{what} ({source}): {detail}", rep)
 
 
+class Script:
+    """Builds a behaviour in the encoding of the model's log; mirrors the model's identifier counter."""
+
+    def __init__(self):
+        self.next = 1
+        self.steps = []
+
+    def _op(self, k, by, arg=0, st="-", kind="-", repo=0):
+        o = {"k": k, "id": self.next, "by": by, "arg": arg, "st": st, "kind": kind, "repo": repo}
+        self.next += 1
+        return o
+
+    def create(self, repo, kind, st="open", by="me"):
+        o = self._op("create", by, 0, st, kind, repo)
+        self.steps.append({"a": "create" if by == "me" else "fetchedCreate", "obj": o["id"], "op": o})
+        return o["id"]
+
+    def op(self, obj, k, by="me", arg=0, st="-"):
+        o = self._op(k, by, arg, st)
+        self.steps.append({"a": "local" if by == "me" else "fetched", "obj": obj, "op": o})
+        return o["id"]
+
+    def plain(self, a, obj=0, kind="-", repo=0):
+        self.steps.append({"a": a, "obj": obj, "op": {"k": "-", "id": 0, "by": "-", "arg": 0, "st": "-", "kind": kind, "repo": repo}})
+
+    def case(self):
+        return {"log": [{"step": s} for s in self.steps]}
+
+
+def populate_full(b, repo, rnd):
+    """Issues and patches in every status / close reason, revisions (one redacted), comments (one
+    redacted), a review with a comment -- by the local node and by the peer."""
+    who = lambda: rnd.choice(["me", "peer"])
+    chunks = []
+
+    def issues():
+        a = who()
+        i1 = b.create(repo, "issue", by=a)
+        b.op(i1, "comment", by="peer" if a == "me" else "me")
+        i2 = b.create(repo, "issue", by=who())
+        b.op(i2, "status", by="me", st="closed:solved")
+        i3 = b.create(repo, "issue", by="peer")
+        b.op(i3, "status", by="peer", st="closed:other")
+        i4 = b.create(repo, "issue", by="me")
+        b.op(i4, "status", by="me", st="closed:other")
+        b.op(i4, "status", by="me", st="open")
+    chunks.append(issues)
+
+    def patches1():
+        b.create(repo, "patch", st="draft", by=who())
+        p3 = b.create(repo, "patch", by="me")
+        b.op(p3, "status", by="me", st="archived")
+        p4 = b.create(repo, "patch", by="peer")
+        b.op(p4, "revision", by="peer")
+        b.op(p4, "status", by="me", st="merged")
+    chunks.append(patches1)
+
+    def patches2():
+        p2 = b.create(repo, "patch", by="me")
+        r = b.op(p2, "revision", by="me")
+        c = b.op(p2, "comment", by="peer", arg=r)
+        w = b.op(p2, "review", by="peer", arg=p2)
+        b.op(p2, "reviewComment", by="me", arg=w)
+        r2 = b.op(p2, "revision", by="peer")
+        b.op(p2, "comment", by="me", arg=r2)
+        b.op(p2, "redactRev", by="peer", arg=r2)
+        b.op(p2, "redactComment", by="peer", arg=c)
+    chunks.append(patches2)
+    rnd.shuffle(chunks)
+    return chunks
+
+
+def populate_light(b, repo, rnd):
+    def light():
+        i = b.create(repo, "issue", by=rnd.choice(["me", "peer"]))
+        b.op(i, "status", by="me", st=rnd.choice(["closed:other", "closed:solved"]))
+        p = b.create(repo, "patch", by="me")
+        b.op(p, "comment", by="peer", arg=p)
+    return [light]
+
+
+def cross_repo_scripts(rnd, n):
+    """Behaviours that fill one or both repositories of the shared cache database."""
+    out = []
+    for v in range(n):
+        b = Script()
+        if v % 3 == 0:
+            chunks = populate_full(b, 2, rnd) + populate_light(b, 1, rnd)
+        elif v % 3 == 1:
+            chunks = populate_light(b, 2, rnd) + populate_full(b, 1, rnd)
+        else:
+            chunks = populate_full(b, 1, rnd) + populate_full(b, 2, rnd)
+            rnd.shuffle(chunks)
+        for c in chunks:
+            c()
+        # maintenance steps at the end: write_all of one repository must not touch the other's rows;
+        # removals
+        b.plain("writeAll", kind="issue", repo=rnd.choice([1, 2]))
+        b.plain("writeAll", kind="patch", repo=rnd.choice([1, 2]))
+        mine = [s["obj"] for s in b.steps if s["a"] == "create"]
+        if mine:
+            b.plain("remove", obj=rnd.choice(mine))
+        theirs = [s["obj"] for s in b.steps if s["a"] == "fetchedCreate"]
+        if theirs:
+            b.plain("fetchedDelete", obj=rnd.choice(theirs))
+        b.plain("writeAll", kind="issue", repo=1)
+        b.plain("writeAll", kind="issue", repo=2)
+        out.append(b.case())
+    return out
+
+
+def validate_trace(ctx, rec, source, thorough):
+    """TLC validation of a recorded ndjson trace; reports a violation if the model cannot follow."""
+    recorded = ctx.read_ndjson(rec)
+    ok, info, tres = ctx.validate("TraceCobCache", "TraceCobCache.cfg", rec, timeout=3000 if thorough else 600, heap="6g",
+                                  label=f"trace-validation ({source})")
+    if ok:
+        return recorded
+    at = tres.distinct  # 1-based number of the first record the model cannot follow
+    h = []
+    for r in recorded[:at]:
+        if r["ev"] == "reset":
+            h = []
+        else:
+            h.append(r["step"])
+    what = info.get("violated") or info.get("rejected")
+    ctx.violation(f"{source} [{' '.join(describe(s) for s in h)}] {what}",
+                  "the answers of the real stores after the last step of this behaviour are not the ones CobCache.tla gives (or an invariant fails)",
+                  {"steps": h, "record": recorded[at - 1] if 0 < at <= len(recorded) else None, "tlc": info})
+    return None
+
+
 def nontrivial(c):
     acts = [e["step"]["a"] for e in c["log"]]
     ks = [e["step"]["op"]["k"] for e in c["log"]]
@@ -99,7 +233,7 @@ def run(ctx):
     cfg = "MCCobCache_t.cfg" if thorough else "MCCobCache_q.cfg"
     res = ctx.tlc("MCCobCache", cfg, workers=8 if thorough else 6, timeout=3000 if thorough else 600, coverage=False,
                   heap="8g" if thorough else "4g",
-                  label="exhaustive: <=2 objects, <=4 (thorough) / 3 (quick) operations, <=5 / 4 steps; invariants QueriesAgree, CacheCoherent")
+                  label="exhaustive: 2 repositories in one cache database, <=2 objects, <=4 (thorough) / 3 (quick) operations, <=5 / 4 steps; invariants QueriesAgree (per repository), CacheCoherent")
     ctx.tlc_ok(res, f"MCCobCache/{cfg}")
     if res.violated:
         ctx.violation(f"model:{res.violated}", "the cache design violates the invariant in the bounded model", {"tlc_counterexample": res.error_trace[:120]})
@@ -116,8 +250,12 @@ def run(ctx):
     need = {"create", "fetchedCreate", "local", "fetched", "remove", "fetchedDelete", "writeAll", "redactRev", "comment", "review", "status"}
     if not need <= kinds:
         raise vlib.ToolError(f"vacuous case set: missing {sorted(need - kinds)}")
-    # the three deviations (the code before the fixes) must each be rejected by TLC
-    for d in ("JsonTree", "StatusOnly", "RemoveDrops"):
+    # the deviations (the code before the fixes; queries that forget the repository) must each be
+    # rejected by TLC
+    devs = ["JsonTree", "StatusOnly", "RemoveDrops", "UnscopedStatus", "UnscopedFind"]
+    if thorough:
+        devs += ["UnscopedGet", "UnscopedList", "UnscopedCounts"]
+    for d in devs:
         dev = ctx.tlc("MCCobCache", f"MCCobCache_dev_{d}.cfg", workers=4, timeout=600, coverage=False, count=False,
                       label=f"sanity: deviation {d} must violate QueriesAgree")
         if dev.violated != "QueriesAgree":
@@ -128,7 +266,8 @@ def run(ctx):
     # (redactions, review comments, deletions) are always in the sample
     buckets = {}
     for c in cases:
-        sig = tuple(sorted(e["step"]["a"] + ":" + e["step"]["op"]["k"] for e in c["log"]))
+        sig = tuple(sorted(e["step"]["a"] + ":" + e["step"]["op"]["k"] for e in c["log"])) + \
+            (len(set(e["step"]["op"]["repo"] for e in c["log"] if e["step"]["op"]["k"] == "create")),)
         buckets.setdefault(sig, []).append(c)
     keys = sorted(buckets)
     rnd.shuffle(keys)
@@ -178,30 +317,56 @@ def run(ctx):
         with open(rec, "w") as out:
             for o in outs:
                 out.write(open(o).read())
-        recorded = ctx.read_ndjson(rec)
-        ok, info, tres = ctx.validate("TraceCobCache", "TraceCobCache.cfg", rec, timeout=3000 if thorough else 600, heap="6g")
-        if not ok:
-            at = tres.distinct  # 1-based number of the first record the model cannot follow
-            h = []
-            for r in recorded[:at]:
-                if r["ev"] == "reset":
-                    h = []
-                else:
-                    h.append(r["step"])
-            what = info.get("violated") or info.get("rejected")
-            ctx.violation(f"recorded behaviour [{' '.join(describe(s) for s in h)}] {what}",
-                          "the answers of the real stores after the last step of this behaviour are not the ones CobCache.tla gives (or an invariant fails)",
-                          {"steps": h, "record": recorded[at - 1] if 0 < at <= len(recorded) else None, "tlc": info})
-        else:
+        recorded = validate_trace(ctx, rec, "recorded behaviour", thorough)
+        if recorded is not None:
             nb = sum(1 for r in recorded if r["ev"] == "reset")
             ns = sum(1 for r in recorded if r["ev"] == "step")
             ctx.cov["traces_validated_against_impl"] += nb
             ctx.cov["recorded_behaviours"] = nb
             ctx.cov["recorded_steps"] = ns
-            ctx.cov["evaluations"] += sum(2 * len(r["ans"]["get"]) + 12 for r in recorded if r["ev"] == "step")
+            ctx.cov["evaluations"] += sum(len(r["ans"]) * (2 * len(r["ans"][0]["get"]) + 12) for r in recorded if r["ev"] == "step")
             longest = [r["step"] for r in recorded[1:steps + 1] if r["ev"] == "step"]
             ctx.cov["samples"] += [{"recorded": " ".join(describe(s) for s in longest)}]
+    # several repositories in one cache database: scripted behaviours that fill both repositories
+    # with issues and patches of every status and reason; after every step all queries of both
+    # repositories (with the identifiers of both as arguments), cache vs direct evaluation; the
+    # recorded answers are validated against the model as well
+    scripts = cross_repo_scripts(rnd, 12 if thorough else 3)
+    nproc = min(len(scripts), 6)
+    jobs, outs, traces = [], [], []
+    for i in range(nproc):
+        p = ctx.write_cases(scripts[i::nproc], f"cross-{i}.ndjson")
+        o = os.path.join(ctx.work, f"cross-verdicts-{i}.ndjson")
+        tr = os.path.join(ctx.work, f"cross-trace-{i}.ndjson")
+        outs.append(o)
+        traces.append(tr)
+        jobs.append(["--mode", "replay", "--cases", p, "--out", o, "--trace", tr])
+    t = time.time()
+    run_engines(ctx, jobs, 3000)
+    vlib.log(f"engine {ENGINE} cross-repository scripts: {len(scripts)} behaviours of {len(scripts[0]['log'])}..{max(len(c['log']) for c in scripts)} steps {time.time()-t:.1f}s")
+    cross_failed = False
+    cstats = {}
+    for o in outs:
+        for r in ctx.read_ndjson(o):
+            if r.get("summary"):
+                for k, v in r["stats"].items():
+                    cstats[k] = cstats.get(k, 0) + v
+            else:
+                cross_failed = True
+                report(ctx, r, "two repositories sharing the cache database")
+    ctx.cov["cross_repository_behaviours"] = len(scripts)
+    ctx.cov["cross_repository_steps"] = cstats.get("steps", 0)
+    ctx.cov["evaluations"] += cstats.get("query_comparisons", 0)
+    if not cross_failed:
+        rec = os.path.join(ctx.work, "cross-trace.ndjson")
+        with open(rec, "w") as out:
+            for tr in traces:
+                out.write(open(tr).read())
+        if validate_trace(ctx, rec, "cross-repository behaviour", thorough) is not None:
+            ctx.cov["traces_validated_against_impl"] += len(scripts)
+            ctx.cov["samples"] += [{"cross_repository": " ".join(describe(e["step"]) for e in scripts[0]["log"][:14]) + " ..."}]
     ctx.assumptions += [
+        "two repositories of one storage share one cache database (identifiers never coincide across repositories: change ids cover the repository identity)",
         "two namespaces (the local node and one peer); actors are in sync before they act, so object histories are linear and a reference is a prefix of the history",
         "the fetch is simulated by copying the peer's namespace (objects and references, with pruning) between the two real storages; the RefUpdate list it produces is passed to the real cache_cobs through the hook worker::fetch::verif_cache_cobs",
         "objects always evaluate (no invalid root changes); list results are compared as sets",
